@@ -1,7 +1,8 @@
 """C12 — whitespace control follows the documented trimming rules.
 
 Renders generated template skeletons (text runs of spaces/tabs/line breaks/
-letters alternating with no-output block tags, comments, variable tags that
+letters - and, in the widened parts, every other kind of Unicode whitespace -
+alternating with no-output block tags, comments, variable tags that
 print a marker and raw blocks, every allowed '-'/'+'/'' modifier on each side)
 under all four trim_blocks/lstrip_blocks settings and compares the output with
 the documentation-derived model in vt.model.c12_trim.  Independent sub-oracle:
@@ -11,6 +12,7 @@ from __future__ import annotations
 import itertools
 
 from vt.gen import c12_skel as G
+from vt.gen import c39_ws as W
 from vt.model import c12_trim as M
 
 PID = "C12"
@@ -22,7 +24,17 @@ RULE = ("skeleton = text runs (space, tab, \\n, \\r\\n, \\r, letters) alternatin
         "lstrip_blocks settings. Exhaustive: all valid tag sequences of <=2 tags (quick) / <=3 "
         "tags (thorough) x all modifier assignments x all text assignments from fixed run "
         "sets; quick additionally samples every 3-tag shape; then random 1-7 tag skeletons with "
-        "rich runs (also keep_trailing_newline / newline_sequence variants). One evaluation = "
+        "rich runs (also keep_trailing_newline / newline_sequence variants). full whitespace "
+        "class: the same rules over runs holding whitespace other than space/tab/line breaks "
+        "(form feed, vertical tab, NEL, NBSP, en/em/hair/narrow/ideographic spaces, U+1680, "
+        "U+205F, line/paragraph separator; ZERO WIDTH SPACE as blank-looking TEXT): all 1-tag "
+        "shapes x all modifiers x settings x 9x9 runs that put such a character alone / mixed "
+        "with blanks at the source start, before and after a line break, directly before and "
+        "directly after the tag; all 2-tag shapes x modifiers x settings x own-line/same-line "
+        "run triples (quick: one triple per shape in rotation); 45% of the random skeletons get "
+        "their blanks (partly) replaced by and their runs extended with such characters, so "
+        "that '-' on the LEFT and on the RIGHT of every tag kind, lstrip_blocks, trim_blocks "
+        "and '+' all meet them in rendered output. One evaluation = "
         "one render compared with the model + the non-whitespace-preservation oracle. distinct = "
         "distinct exhaustive shapes (settings x tag sequence x modifier assignment) and distinct "
         "gap contexts (settings x left neighbour kind+modifier x right neighbour kind+modifier "
@@ -30,10 +42,21 @@ RULE = ("skeleton = text runs (space, tab, \\n, \\r\\n, \\r, letters) alternatin
 TECHNIQUE = "reference-model monitor (documentation-derived trimming model) over exhaustive small skeletons + random larger ones"
 LEVEL_TEXT = ("held on K rendered skeletons covering every modifier/setting combination for <=2 "
               "(quick) / <=3 (thorough) tags exhaustively over fixed text-run sets, and random "
-              "skeletons up to 7 tags; says nothing about whitespace characters other than "
-              "space/tab/LF/CR/CRLF, line statements, or '+' on variable tags")
+              "skeletons up to 7 tags, over the Unicode White_Space class (U+001C-U+001F, which "
+              "only Python's str.isspace counts as whitespace, are not generated); says nothing "
+              "about line statements or '+' on variable tags")
 ASSUMPTIONS = [
-    "whitespace alphabet restricted to space, tab, \\n, \\r\\n, \\r (the docs name 'spaces, tabs, newlines')",
+    "whitespace = the characters with the Unicode White_Space property, ONE class for every "
+    "rule ('-' on either side, lstrip_blocks line starts): the docs never define the word "
+    "('spaces, tabs, newlines etc.'; '-': 'the whitespaces before or after that block will be "
+    "removed', no restriction) and the property statement uses the one word for all rules; the "
+    "full reasoning is vt/checks/c39.py ASSUMPTIONS[0] (same model, vt.model.c12_trim). "
+    "U+001C-U+001F (whitespace for str.isspace/\\s only, not White_Space) are never generated. "
+    "Only LF, CRLF, CR are line breaks (trim_blocks' 'first newline', lstrip_blocks' line "
+    "start). Violation keys for runs holding whitespace other than space/tab/line breaks end "
+    "in ':non-space-tab-ws'",
+    "the widened runs stay OUTSIDE the tags (which whitespace may separate the words inside a "
+    "tag is not documented)",
     "trim_blocks removes a newline only when it directly follows the tag ('like in PHP')",
     "lstrip_blocks applies to {% raw %} and {% endraw %} as block tags; trim_blocks does not act "
     "after {% raw %} (raw body verbatim, property statement)",
@@ -51,7 +74,32 @@ FLOORS = {
                            "rule:minus-left": 15000, "rule:minus-right": 15000,
                            "rule:trim_blocks": 3000, "rule:lstrip_blocks": 2500,
                            "rule:plus-cancels-trim": 1600, "rule:plus-cancels-lstrip": 1800,
-                           "raw_body_cases": 2000}},
+                           "raw_body_cases": 2000,
+                           # full whitespace class: the exhaustive part (9516 cases) is never
+                           # time-boxed, the random part has a floor of 80 skeletons per shard
+                           "cases_exotic": 5000, "cases_exotic_exhaustive": 9000,
+                           "cases_exotic_random": 800,
+                           "exotic_removed_by_minus_left": 1800,
+                           "exotic_removed_by_minus_right": 1900,
+                           "exotic_removed_by_minus_left:block": 700,
+                           "exotic_removed_by_minus_left:comment": 500,
+                           "exotic_removed_by_minus_left:var": 400,
+                           "exotic_removed_by_minus_left:raw_open": 60,
+                           "exotic_removed_by_minus_left:raw_close": 30,
+                           "exotic_removed_by_minus_right:block": 700,
+                           "exotic_removed_by_minus_right:comment": 500,
+                           "exotic_removed_by_minus_right:var": 400,
+                           "exotic_removed_by_minus_right:raw_open": 90,
+                           "exotic_removed_by_minus_right:raw_close": 50,
+                           "exotic_outermost_in_minus_left_run": 250,
+                           "exotic_outermost_in_minus_right_run": 1000,
+                           "exotic_removed_by_lstrip:block": 300,
+                           "exotic_removed_by_lstrip:comment": 200,
+                           "exotic_removed_by_lstrip:raw_open": 50,
+                           "exotic_removed_by_lstrip:raw_close": 15,
+                           "exotic_kept_by_plus": 500, "exotic_between_tag_and_newline": 350,
+                           "exotic_after_trimmed_newline": 300, "exotic_in_raw_body": 350,
+                           "exotic_kept_in_output": 7000, "zero_width_space_runs": 150}},
     "thorough": {"evaluations": 500000, "distinct": 10000,
                  "counters": {"renders": 500000, "oracle_model": 500000,
                               "oracle_nonws": 500000, "cases_n1": 30000, "cases_n2": 130000,
@@ -59,7 +107,32 @@ FLOORS = {
                               "rule:minus-left": 450000, "rule:minus-right": 450000,
                               "rule:trim_blocks": 60000, "rule:lstrip_blocks": 80000,
                               "rule:plus-cancels-trim": 45000, "rule:plus-cancels-lstrip": 70000,
-                              "raw_body_cases": 55000}},
+                              "raw_body_cases": 55000,
+                              "cases_exotic": 17000, "cases_exotic_exhaustive": 9000,
+                              "cases_exotic_random": 12000,
+                              "exotic_removed_by_minus_left": 7500,
+                              "exotic_removed_by_minus_right": 7500,
+                              "exotic_removed_by_minus_left:block": 3000,
+                              "exotic_removed_by_minus_left:comment": 1500,
+                              "exotic_removed_by_minus_left:var": 1900,
+                              "exotic_removed_by_minus_left:raw_open": 600,
+                              "exotic_removed_by_minus_left:raw_close": 400,
+                              "exotic_removed_by_minus_right:block": 3000,
+                              "exotic_removed_by_minus_right:comment": 1500,
+                              "exotic_removed_by_minus_right:var": 1800,
+                              "exotic_removed_by_minus_right:raw_open": 600,
+                              "exotic_removed_by_minus_right:raw_close": 600,
+                              "exotic_outermost_in_minus_left_run": 2000,
+                              "exotic_outermost_in_minus_right_run": 5000,
+                              "exotic_removed_by_lstrip:block": 1900,
+                              "exotic_removed_by_lstrip:comment": 900,
+                              "exotic_removed_by_lstrip:raw_open": 500,
+                              "exotic_removed_by_lstrip:raw_close": 170,
+                              "exotic_kept_by_plus": 1700,
+                              "exotic_between_tag_and_newline": 5000,
+                              "exotic_after_trimmed_newline": 1800,
+                              "exotic_in_raw_body": 4000, "exotic_kept_in_output": 40000,
+                              "zero_width_space_runs": 2400}},
 }
 
 SETTINGS = [(False, False), (False, True), (True, False), (True, True)]
@@ -86,6 +159,45 @@ class State:
                 trim_blocks=tb, lstrip_blocks=ls, keep_trailing_newline=keep,
                 newline_sequence=nl, cache_size=0)
         return e
+
+
+def exotic_coverage(ctx, p, part):
+    """Monitor counters of the full whitespace class: which rules met whitespace other than
+    space/tab/line breaks in this (successfully rendered) source."""
+    ctx.count("cases_exotic")
+    ctx.count("cases_exotic_" + part)
+    for g in p.gaps:
+        run = g["run"]
+        if not M.has_exotic(run):
+            continue
+        left, right = run[:g["a"]], run[g["b"]:]
+        if g["rr"] == "lstrip_blocks" and M.has_exotic(right):
+            ctx.count("exotic_removed_by_lstrip:" + g["B"][0])
+        if g["rr"] == "plus-cancels-lstrip" and M.has_exotic(run[run.rfind("\n") + 1:]):
+            ctx.count("exotic_kept_by_plus")
+        if g["rr"] == "minus" and M.has_exotic(right):
+            ctx.count("exotic_removed_by_minus_left:" + g["B"][0])
+            ctx.count("exotic_removed_by_minus_left")
+            if right[:1] in M.EXOTIC and len(right) > 1:
+                # the removed run STARTS with such a character: everything between it and the
+                # tag (spaces, tabs, line breaks) must go as well
+                ctx.count("exotic_outermost_in_minus_left_run")
+        if g["rl"] == "minus" and M.has_exotic(left):
+            ctx.count("exotic_removed_by_minus_right:" + g["A"][0])
+            ctx.count("exotic_removed_by_minus_right")
+            if left[-1:] in M.EXOTIC and len(left) > 1:
+                ctx.count("exotic_outermost_in_minus_right_run")
+        if g["rl"] is None and g["A"] is not None and g["A"][0] in M.TRIM_AFTER \
+                and run[:1] in M.EXOTIC and "\n" in run:
+            ctx.count("exotic_between_tag_and_newline")
+        if g["rl"] == "trim_blocks" and M.has_exotic(g["kept"]):
+            ctx.count("exotic_after_trimmed_newline")
+        if M.has_exotic(g["kept"]):
+            ctx.count("exotic_kept_in_output")
+        if g["raw_body"]:
+            ctx.count("exotic_in_raw_body")
+        if W.ZWSP in run:
+            ctx.count("zero_width_space_runs")
 
 
 def check_case(st, skel, tb, ls, keep=False, nl="\n", part="random", shape=None):
@@ -120,6 +232,8 @@ def check_case(st, skel, tb, ls, keep=False, nl="\n", part="random", shape=None)
             ctx.count("raw_body_cases")
     if p.removed_chars:
         ctx.count("removed_chars", p.removed_chars)
+    if M.has_exotic(p.norm):
+        exotic_coverage(ctx, p, "exhaustive" if part == "exotic-exhaustive" else "random")
     if shape is not None and p.nontrivial and shape not in st.seen:
         st.seen.add(shape)
         ctx.dist(("shape", shape))
@@ -131,6 +245,9 @@ def check_case(st, skel, tb, ls, keep=False, nl="\n", part="random", shape=None)
         if st.recorded < MAX_RECORDED:
             st.recorded += 1
             key, g = M.divergence_key(p, p.rendered, got, tb, ls)
+            if M.has_exotic(g["run"]):
+                # the diverging run holds whitespace other than space/tab/line breaks
+                key += ":non-space-tab-ws"
             ctx.violation(
                 key,
                 f"source {p.source!r} trim_blocks={tb} lstrip_blocks={ls} keep_trailing_newline="
@@ -203,6 +320,43 @@ def run(ctx):
         ctx.sample({"part": "n2", "source": M.build(G.skeleton_from(
             ("raw", "endraw"), (("", "-"), ("-", "")), (" \n ", " \n ", "\n")))})
 
+    # ---- part X: whitespace other than space/tab/line breaks (form feed, vertical tab, NEL,
+    # NBSP, em/ideographic space, line separator ...) in every rule-relevant position:
+    # 1 tag x all modifiers x settings x T1X x T1X, 2 tags x all modifiers x settings x
+    # own-line / same-line run triples
+    for seq in M.tag_sequences(1):
+        for mods in mod_products(seq):
+            for texts in itertools.product(W.T1X, repeat=2):
+                idx += 1
+                if not ctx.mine(idx):
+                    continue
+                skel = G.skeleton_from(seq, mods, texts)
+                for tb, ls in SETTINGS:
+                    check_case(st, skel, tb, ls, part="exotic-exhaustive",
+                               shape=(tb, ls, seq, mods, "x"))
+    for seq in M.tag_sequences(2):
+        for mods in mod_products(seq):
+            idx += 1
+            if not ctx.mine(idx):
+                continue
+            if not quick and ctx.elapsed() > ctx.budget_s * 0.6:
+                complete = False
+                ctx.count("exhaustive_exotic_n2_cut")
+                break
+            # quick: one of the run triples per shape (rotating), never time-boxed
+            triples = [W.T2X_TRIPLES[(idx // ctx.nshards) % len(W.T2X_TRIPLES)]] if quick \
+                else W.T2X_TRIPLES
+            for texts in triples:
+                skel = G.skeleton_from(seq, mods, texts)
+                for tb, ls in SETTINGS:
+                    check_case(st, skel, tb, ls, part="exotic-exhaustive",
+                               shape=(tb, ls, seq, mods, "x"))
+        if not complete:
+            break
+    if ctx.shard == 0:
+        ctx.sample({"part": "exotic-exhaustive", "source": M.build(G.skeleton_from(
+            ("raw", "endraw"), (("-", "-"), ("-", "-")), ("a\x0c\n", "\xa0 r\n\x0b", " \u2003b")))})
+
     # ---- part C: 3 tags.  thorough: every (sequence, modifier assignment) x settings x
     # T3 text sets; quick: the shapes are sampled (1 random text assignment each, until
     # the time share is used up)
@@ -245,6 +399,9 @@ def run(ctx):
         i += 1
         nt = rng.choice((1, 2, 3, 4, 4, 5, 5, 6, 6, 7))
         skel = G.random_skeleton(rng, nt)
+        if rng.random() < 0.45:
+            # blanks (partly) replaced by / runs extended with other whitespace characters
+            skel = W.exoticize(rng, skel, inner=False)
         keep = rng.random() < 0.2
         nl = rng.choice(("\n", "\n", "\n", "\r\n", "\r"))
         for tb, ls in SETTINGS:
